@@ -416,7 +416,8 @@ fn prime_field<F: FpAccess + Coord>(ctx: &mut Ctx, name: &str, seen: &Mutex<BTre
     }
     let n = F::NLIMBS;
     let mont = Mont::new(&p, n);
-    if p <= BigUint::from(257u32) {
+    // whole universe for p <= 257 (thorough: p <= 1021)
+    if p <= BigUint::from(ctx.t(257u32, 1021u32)) {
         let pu = p.to_u64_digits()[0];
         let all: Vec<Vec<u64>> = (0..pu).map(|x| mont.encode(&BigUint::from(x))).collect();
         prime_checks::<F>(ctx, name, &all, "all_pairs");
@@ -2029,7 +2030,7 @@ fn main() {
     ctx.assume("short-Weierstrass Affine with infinity=true and junk x,y is only constructible through #[doc(hidden)] fields; every API route to the affine identity (identity(), zero(), default(), into_affine, normalize_batch, From) is compared instead");
     ctx.assume("DenseMultilinearExtension/SparseMultilinearExtension special zero (num_vars = 0) is the library's documented convention: results with a different num_vars are not compared with n-variable objects");
     ctx.assume("no Ord is implemented for curve points or polynomials (nothing to check); PairingOutput derives Ord from the target field");
-    ctx.bound("prime_fields", "p <= 257: all ordered pairs of residues x ~35 sequences; larger toy moduli (1..13 limbs, derived + hand-written) and every shipped prime field: <= 60 boundary values (integers and raw-limb patterns), all ordered pairs");
+    ctx.bound("prime_fields", "p <= 257 (thorough: p <= 1021): all ordered pairs of residues x ~35 sequences; larger toy moduli (1..13 limbs, derived + hand-written) and every shipped prime field: <= 60 boundary values (integers and raw-limb patterns), all ordered pairs");
     let seen = Mutex::new(BTreeSet::new());
     algebra_mc::tiny_fields_derived!(tiny, &mut ctx, &seen);
     algebra_mc::tiny_fields_hand!(tiny, &mut ctx, &seen);
